@@ -135,8 +135,13 @@ def _run_check(prop, src_dir, tmp):
         # is judged "held" against the unchanged tree (exit 0)
         replays = sorted(glob.glob(os.path.join(tmp, f'{prop}-*.json')))
         if replays:
-            r1 = subprocess.run([sys.executable, CHECK, prop, '--replay', replays[0]], stdout=subprocess.PIPE, stderr=subprocess.STDOUT, env=env, text=True, timeout=1800)
+            # prefer a replay that was reproducible when it was recorded (a tree whose behaviour depends on object
+            # addresses yields replays flagged otherwise; those may legitimately not recur)
+            firm = [r for r in replays if json.load(open(r)).get('reproducible') is not False]
+            flagged = not firm
+            replays = firm or replays
             vclass = json.load(open(replays[0]))['violation']['class']
+            r1 = subprocess.run([sys.executable, CHECK, prop, '--replay', replays[0]], stdout=subprocess.PIPE, stderr=subprocess.STDOUT, env=env, text=True, timeout=1800)
             if r1.returncode != 1 and vclass.startswith(('sanitizer:memory-error', 'crash:')):
                 # undefined behaviour in the defective program: what a dangling access observes varies between executions
                 for _ in range(3):
@@ -147,7 +152,7 @@ def _run_check(prop, src_dir, tmp):
             env2.pop('VERIF_REPO_SRC')
             r2 = subprocess.run([sys.executable, CHECK, prop, '--replay', replays[0]], stdout=subprocess.PIPE, stderr=subprocess.STDOUT, env=env2, text=True, timeout=1800)
             classes.append(f'replay(defective)={r1.returncode},replay(clean)={r2.returncode}')
-            if r1.returncode != 1 or r2.returncode != 0:
+            if (r1.returncode != 1 and not (flagged and r1.returncode == 0)) or r2.returncode != 0:
                 rc = 2
                 tail += ' REPLAY-CONTRACT-BROKEN ' + r1.stdout[-300:] + ' | ' + r2.stdout[-300:]
     return rc, classes, tail
